@@ -35,7 +35,7 @@ EXPLANATION = (
     'member with the documented grouping, the counters added by total_failure_count are exactly those fed by the members of the '
     'folded is_bad set, doit returns non-zero iff total_failure_count() > 0, the label->counter table of summary agrees and every '
     'positive counter is printed.  R5: test_slice returns (int(part 0), int(part 1)) under the documented guards and get_tests '
-    'selects tests[SLICE-1::NUM_SLICES].  The exit status handed from doit()/run()/run_with_args() to sys.exit is drawn from constants in 0..255, never a count.  R7: in an async function that repeats asyncio.wait/wait_for in a loop with a caller-supplied timeout variable (complete_all), that variable is re-assigned inside the loop from a clock-reading expression (necessary for the total wait to stay within the budget; the arithmetic itself is not decided).  R6: get_tests builds the selection by filtering one source at a time (no concatenation), and in the selection generator (tests_from_args) no path leads from a `yield <candidate>` to another one without advancing the single loop over the candidates.  In the predicate get_tests filters with (test_suitable) the exclude_suites of the test setup are consulted only on paths where --suite was seen empty.  R8: the default of -j is determine_worker_count([... MESON_TESTTHREADS ...]); in determine_worker_count the count is overwritten inside the loop over the variable names only on paths where the variable is known to be present; the value that sizes the semaphore is validated positive (a -j parser that only returns positive counts, or a guard / max()). All tables are extracted from a normal form (small helpers and starter closures inlined, single-definition locals and tuple unpackings propagated, walrus / conditional values / list comprehensions desugared, constant lookup tables unrolled, internal calls bound by signature); a finding is reported only when every construct on the judged path was classified.  NOT decided: asyncio interleavings beyond this await protocol; that timeouts kill '
+    'selects tests[SLICE-1::NUM_SLICES].  The exit status handed from doit()/run()/run_with_args() to sys.exit is drawn from constants in 0..255, never a count.  R7: in an async function that repeats asyncio.wait/wait_for in a loop with a caller-supplied timeout variable (complete_all), that variable is re-assigned inside the loop from a clock-reading expression (necessary for the total wait to stay within the budget; the arithmetic itself is not decided).  R6: get_tests builds the selection by filtering one source at a time (no concatenation), and in the selection generator (tests_from_args) no path leads from a `yield <candidate>` to another one without advancing the single loop over the candidates.  In the predicate get_tests filters with (test_suitable) the exclude_suites of the test setup are consulted only on paths where --suite was seen empty.  R8: the default of -j is determine_worker_count([... MESON_TESTTHREADS ...]); in determine_worker_count the count is overwritten inside the loop over the variable names only on paths where the variable is known to be present; the value that sizes the semaphore is validated positive (a -j parser that only returns positive counts, or a guard / max()). All tables are extracted from a normal form (small helpers and starter closures inlined, single-definition locals and tuple unpackings propagated, walrus / conditional values / list comprehensions desugared, constant lookup tables unrolled, internal calls bound by signature); a finding is reported only when every construct on the judged path was classified.  NOT decided: asyncio interleavings beyond this await protocol; that timeouts kill (including that every test that can time out is started in its own session: the condition under which preexec_fn skips os.setsid() would have to be related to options.interactive through SingleTestRunner.console_mode -> TestRun.console_mode -> the constructor argument, which this pack does not follow) '
     'process groups; --maxfail timing; the composed end-to-end value of complete() for a concrete run (only the per-method tables '
     'and their chaining); the rendered text of summary(); the partition property of --slice as such (only the offset/stride roles).')
 ASSUMPTIONS = [
@@ -1269,6 +1269,21 @@ def _res_rows(ctx: RuleCtx, mod: Module, fn: T.Any, qn: str) -> T.List[ResRow]:
                 if lk is not None:
                     out.extend(lk)
                     continue
+                v_ = st.value
+                if attr_chain(v_) == RES:
+                    continue    # `self.res = self.res`: nothing changes
+                if isinstance(v_, ast.Call) and not v_.args and not v_.keywords and isinstance(v_.func, ast.Attribute) and attr_chain(v_.func.value) == RES \
+                        and mod.has_func(f'TestResult.{v_.func.attr}') and not decorator_names(mod.func(f'TestResult.{v_.func.attr}')):
+                    # a method of the enum applied to the current result: its body with `self` standing for self.res
+                    em = _propagated(mod.func(f'TestResult.{v_.func.attr}'))
+                    if any(isinstance(n, ast.Name) and n.id == 'self' and isinstance(n.ctx, ast.Store) for n in ast.walk(em)):
+                        raise Undecided(f'{qn}: TestResult.{em.name} rebinds self')
+                    sub_ = tables._Subst({'self': ast.Attribute(value=ast.Name(id='self', ctx=ast.Load()), attr='res', ctx=ast.Load())})
+                    inl = _ret2assign([sub_.visit(x) for x in em.body], lambda: ast.Attribute(value=ast.Name(id='self', ctx=ast.Load()), attr='res', ctx=ast.Store()), qn)
+                    for x in inl:
+                        ast.fix_missing_locations(x)
+                    out.extend(expand(inl))
+                    continue
             for field in ('body', 'orelse'):
                 sub = getattr(st, field, None)
                 if isinstance(st, ast.If) and isinstance(sub, list):
@@ -1893,7 +1908,8 @@ def r4(ctx: RuleCtx) -> None:
 
     # (a) process_test_result: one arm and one counter per finished member
     fq = 'TestHarness.process_test_result'
-    fn = _unroll_table_setattr(ctx, mod, 'TestHarness', _propagated(_inline_helpers(ctx, mod, 'TestHarness', mod.func(fq), fq, keep={'is_bad_result'})))   # normal form
+    fn = _unroll_table_setattr(ctx, mod, 'TestHarness', _propagated(_inline_helpers(ctx, mod, 'TestHarness', mod.func(fq), fq, keep={'is_bad_result'}),
+                                                                    calls=set(mod.methods('TestResult'))))   # normal form
     subj = 'ARG1.res'
     badres = Atom('truth', ('self.is_bad_result(ARG1)',))
 
@@ -2000,22 +2016,23 @@ def r4(ctx: RuleCtx) -> None:
     ctx.require(bool(logs) and cfg.dominated_by_any(cfg.exit_return, logs), 'every tallied result is passed to every logger (`for l in self.loggers: l.log(self, result)` on every path)',
                 mod, fq, 'logger loop on every path', 'process_test_result can return without passing the result to the loggers: testlog.json / console lose it', fn)
     # is_bad_result implies is_bad
-    bq = 'TestHarness.is_bad_result'
-    bf = mod.func(bq)
-    bp = [a.arg for a in bf.args.args if a.arg != 'self'][0]
-    ways = _fn_ways_true(_inline_helpers(ctx, mod, 'TestHarness', bf, bq))
-    if not ways:
-        raise Undecided(f'{bq}: no returning path was understood')
-    isb = Atom('truth', (f'{bp}.res.is_bad()',))
-    for w in ways:
-        if w.get(isb) is not True:
-            # closed world: an unresolved name / call / a member test in another spelling means the shape was not understood
-            opaque = [a for a in w if a != isb and _res_pred(ctx, mod, a, f'{bp}.res') is None
-                      and not (a.kind == 'truth' and a.args[0].startswith('self.') and a.args[0][5:].isidentifier())]
-            if opaque:
-                raise Undecided(f'{bq}: depends on {opaque[0]!r}, which this rule does not follow')
-    okb = all(w.get(isb) is True for w in ways)
-    ctx.require(okb, 'is_bad_result(result) implies result.res.is_bad()', mod, bq, 'is_bad_result => is_bad', 'is_bad_result can hold for a result that is not bad', bf)
+    if has_badres:   # the predicate is a separate method; when it was inlined or moved, the tally table above has judged it in place
+        bq = 'TestHarness.is_bad_result'
+        bf = mod.func(bq)
+        bp = [a.arg for a in bf.args.args if a.arg != 'self'][0]
+        ways = _fn_ways_true(_inline_helpers(ctx, mod, 'TestHarness', bf, bq))
+        if not ways:
+            raise Undecided(f'{bq}: no returning path was understood')
+        isb = Atom('truth', (f'{bp}.res.is_bad()',))
+        for w in ways:
+            if w.get(isb) is not True:
+                # closed world: an unresolved name / call / a member test in another spelling means the shape was not understood
+                opaque = [a for a in w if a != isb and _res_pred(ctx, mod, a, f'{bp}.res') is None
+                          and not (a.kind == 'truth' and a.args[0].startswith('self.') and a.args[0][5:].isidentifier())]
+                if opaque:
+                    raise Undecided(f'{bq}: depends on {opaque[0]!r}, which this rule does not follow')
+        okb = all(w.get(isb) is True for w in ways)
+        ctx.require(okb, 'is_bad_result(result) implies result.res.is_bad()', mod, bq, 'is_bad_result => is_bad', 'is_bad_result can hold for a result that is not bad', bf)
 
     # (b) total_failure_count sums exactly the counters of the bad results; doit returns non-zero iff it is positive
     tq = 'TestHarness.total_failure_count'
@@ -2187,6 +2204,46 @@ def _label_table(d: ast.AST) -> T.Optional[T.List[T.Tuple[str, T.Optional[str]]]
     return None
 
 
+def _record_fields(mod: Module, name: str) -> T.Optional[T.List[str]]:
+    """Field names, in order, of a NamedTuple / dataclass record class defined in the module."""
+    if not mod.has_cls(name):
+        return None
+    c = mod.cls(name)
+    is_nt = any((attr_chain(b) or '').split('.')[-1] == 'NamedTuple' for b in c.bases)
+    is_dc = any(d.split('.')[-1] == 'dataclass' for d in decorator_names(c))
+    if not (is_nt or is_dc):
+        return None
+    return [st.target.id for st in c.body if isinstance(st, ast.AnnAssign) and isinstance(st.target, ast.Name)]
+
+
+class _RecordsToTuples(ast.NodeTransformer):
+    """Normal form: `Record(a, b)` / `Record(y=b, x=a)` of a NamedTuple (or positional dataclass) -> the tuple `(a, b)` in field order."""
+
+    def __init__(self, mod: Module):
+        self.mod = mod
+
+    def visit_Call(self, n: ast.Call) -> ast.AST:
+        self.generic_visit(n)
+        if isinstance(n.func, ast.Name):
+            fields = _record_fields(self.mod, n.func.id)
+            if fields is not None and not any(isinstance(a, ast.Starred) for a in n.args) and len(n.args) + len(n.keywords) == len(fields):
+                vals: T.List[T.Optional[ast.AST]] = list(n.args) + [None] * (len(fields) - len(n.args))
+                for k in n.keywords:
+                    if k.arg not in fields or vals[fields.index(k.arg)] is not None:
+                        return n
+                    vals[fields.index(k.arg)] = k.value
+                if all(v is not None for v in vals):
+                    return ast.copy_location(ast.Tuple(elts=T.cast(T.List[ast.expr], vals), ctx=ast.Load()), n)
+        return n
+
+
+def _records_to_tuples(mod: Module, fn: T.Any) -> T.Any:
+    f2 = tables._copy(fn)
+    f2.body = [_RecordsToTuples(mod).visit(st) for st in f2.body]
+    ast.fix_missing_locations(f2)
+    return f2
+
+
 def _desugar_comprehensions(fn: T.Any) -> T.Any:
     """Normal form: `x = [E for t in it if c]` -> `x = []` + `for t in it: if c: x.append(E)` (single generator)."""
     f2 = tables._copy(fn)
@@ -2235,7 +2292,7 @@ def r5(ctx: RuleCtx) -> None:
     # (a) argument parser: "i/n" -> (int(part 0), int(part 1)), accepted iff 0 < i, 0 < n, not n < i
     tq = 'test_slice'
     tsf = mod.func(tq)
-    tab = tables.extract(_propagated(_inline_helpers(ctx, mod, None, tsf, tq), {'split'}), inline_calls={'split'}, name=tq)   # normal form: helpers inlined, locals propagated
+    tab = tables.extract(_propagated(_records_to_tuples(mod, _inline_helpers(ctx, mod, None, tsf, tq)), {'split'}), inline_calls={'split'}, name=tq)   # normal form: helpers inlined, locals propagated
     part = lambda k: f"int(ARG1.split('/')[{k}])"   # noqa: E731
     I, N = part(0), part(1)
     sem = {Atom('cmp', ('eq', "len(ARG1.split('/'))", '2')): 'two', Atom('cmp', ('lt', '0', I)): 'i>0', Atom('cmp', ('lt', '0', N)): 'n>0',
@@ -2434,9 +2491,9 @@ def r6(ctx: RuleCtx) -> None:
 
     # (c) an explicit --suite decides before the exclusions of the test setup (add_test_setup(exclude_suites:): "Suites specified
     #     in the --suite option will always run, overriding add_test_setup if necessary")
-    preds = {c.func.attr for c in ast.walk(fn) if isinstance(c, ast.Call) and isinstance(c.func, ast.Attribute) and attr_chain(c.func.value) == 'self'
-             and mod.has_func(f'TestHarness.{c.func.attr}') and any(isinstance(n, ast.Attribute) and n.attr in ('exclude_suites', 'include_suites')
-                                                                    for n in ast.walk(_inline_helpers(ctx, mod, 'TestHarness', mod.func(f'TestHarness.{c.func.attr}'), gq)))}
+    preds = {c.attr for c in ast.walk(fn) if isinstance(c, ast.Attribute) and attr_chain(c.value) == 'self' and isinstance(c.ctx, ast.Load)
+             and mod.has_func(f'TestHarness.{c.attr}') and any(isinstance(n, ast.Attribute) and n.attr in ('exclude_suites', 'include_suites')
+                                                               for n in ast.walk(_inline_helpers(ctx, mod, 'TestHarness', mod.func(f'TestHarness.{c.attr}'), gq)))}
     holders = {q.split('.')[1] for q, f in mod.funcs().items() if q.startswith('TestHarness.') and q.count('.') == 1
                and any(isinstance(n, ast.Attribute) and n.attr == 'exclude_suites' and attr_chain(n) != 'self.options.exclude_suites' for n in ast.walk(f))}
     if holders and not preds:
